@@ -178,6 +178,13 @@ def cases(tier, seed):
                                                                     mlabel.startswith('trunc-fixed') and int(mlabel.split('-')[-1]) % 5 == 0):
                         continue
                     yield {'state': state, 'seed': sname, 'mut': mlabel, 'bytes': mraw, 'ending': ending}
+        if state == 'Sta2':
+            # a request whose AE titles hold non-ASCII characters in valid UTF-8: if the library takes it for a valid request, the
+            # local user can accept it, and the answer repeats those titles
+            raw = e2.std_rq()
+            for off in (10, 12, 26, 30):
+                yield {'state': state, 'seed': 'rq', 'mut': 'title-utf8@%d' % off, 'bytes': raw[:off] + b'\xc3\xa9' + raw[off + 2:], 'ending': 'accept-then-close'}
+            yield {'state': state, 'seed': 'rq', 'mut': 'none', 'bytes': raw, 'ending': 'accept-then-close'}
         if state in ('Sta6', 'Sta7'):
             for mlabel, mraw in cmd_mutants():
                 for ending in ('close', 'silence'):
@@ -264,6 +271,8 @@ def run_case(case):
         hist.append(('reset',))       # the peer goes away without reading what the provider answered: recv() fails
     elif case['ending'] == 'send-fails':
         hist.append(('reset',))
+    elif case['ending'] == 'accept-then-close':
+        hist += [('user', ('accept_echo',)), ('close',)]
     elif case['ending'] == 'chatter':
         hist += [('tick', 6.0), ('bytes', bytes([0x0B, 0, 0, 0, 0, 2, 1, 2])), ('tick', 4.5)]
     else:
@@ -317,6 +326,8 @@ def run_case(case):
             cands = _classify(ev[1]) if is_chunk else [None]
         elif ev[0] in ('close', 'reset'):
             cands = ['Evt17']
+        elif ev[0] == 'user':
+            cands = ['Evt7'] if 'Evt7' in delta.get(m, {}) else [None]
         else:
             cands = ['Evt18'] if (m[2] and ev[1] == 5.5) else [None]
         obs = ([w[0] for w in wire], [x[0] for x in st['inds']], st['state'] + 1, st['timer'], st['sock'])
@@ -345,7 +356,7 @@ def run_case(case):
         else:
             m = matched
     if fin['status'] == 'quiescent-end':
-        if case['ending'] in ('close', 'reset', 'send-fails') and (fin['state'] != 0 or fin['sock'] == 'open'):
+        if case['ending'] in ('close', 'reset', 'send-fails', 'accept-then-close') and (fin['state'] != 0 or fin['sock'] == 'open'):
             viol.append((sig + ':not-idle-after-close', 'after the peer closed: Sta%d socket %s (%s)' % (fin['state'] + 1, fin['sock'], where)))
         if case['ending'] == 'chatter' and ok_model and m[2] and (fin['state'] != 0 or fin['sock'] == 'open'):
             viol.append((sig + ':artim-rearmed', 'the fault left the provider with ARTIM armed; 6 s later the peer sent another stray PDU, and 10.5 s after the '
